@@ -396,7 +396,7 @@ func init() {
 		ID:    "C15",
 		Level: "exploration",
 		Rule: "A third of the cases plant destination files with the size and mtime of the source file of the same path and other bytes; one destination in fourteen is spelled 'x/zz9/..'. source and destination trees (<=14 entries each, depth<=3) are generated independently over the shared names {a,b,ab,c,d,e,...,..a} (two legal names made of or starting with dots); source types f,d,l,fifo,char, destination additionally sockets, so every (source type, destination type) pair collides. " +
-			"src argument: a source entry, the root ('.', '/', '/.', ''), 'dir/.', or a wildcard ('*','a*','?','[a-c]*','dir/*','*/a'); dst argument: existing directory / non-directory, new name, nested not-yet-existing 'n1/n2', the root, a path below a non-directory; optional leading and trailing separator; flags = random subset of {CopyDirContents, AlwaysReplace, AllowWildcards}. About one case in twelve spells the source 'x/.' for an entry x of any type (three quarters non-directories: it behaves exactly like 'x'; violations there are reported as nondir-dot-source), one in twenty-four copies a directory (directory-contents off) onto an existing non-directory (rule 5: conflict, obstacle stays; with always-replace the source wins - reported as dir-over-nondir-always-replace). No argument traverses a symlink (C14 does that). " +
+			"src argument: a source entry, the root ('.', '/', '/.', ''), 'dir/.', or a wildcard ('*','a*','?','[a-c]*','dir/*','*/a'); dst argument: existing directory / non-directory, new name, nested not-yet-existing 'n1/n2', the root, a path below a non-directory; optional leading and trailing separator; flags = random subset of {CopyDirContents, AlwaysReplace, AllowWildcards}. About one case in twelve spells the source 'x/.' for an entry x of any type (three quarters non-directories: it behaves exactly like 'x'; violations there are reported as nondir-dot-source), one in twenty-four copies a directory (directory-contents off) onto an existing non-directory (rule 5: conflict, obstacle stays; with always-replace the source wins - reported as dir-over-nondir-always-replace). No argument traverses a symlink (C14 does that). One case in forty is the directed variant lazy-parent-obstacle: an include pattern selects an entry below an unselected directory where the destination has a symlink to one of its own directories (holding that name) or a file; the call has to fail and leave the destination exactly as it was, with and without always-replace. " +
 			"fs.Copy runs on disk in a chroot jail and is compared with the executable overlay model (rules 1-7 of DESIGN C15): expected success => snapshot equals the model in paths, types, bytes, targets, rdev, mode/owner (not for directories made only for the path; an existing top-level landing directory keeps its own) and xattrs (nested merged directories: source's added, old ones may stay), unrelated entries keep inode and bytes; expected error => the call fails and the obstacle (with its subtree) keeps inode, type, bytes. A wildcard source is modelled as the sequence of single-source copies of its matches in walk order, each one re-evaluating whether dst exists and is a directory (also when dst does not exist yet or is a non-directory: the first match creates/replaces it, the later ones meet the result); one case in seven is drawn for exactly that: a pattern with >=2 matches whose first match is a directory (the lexically first source entry is turned into a directory in two thirds of them) onto a not-yet-existing plain or nested dst. Any outcome is accepted (and counted by reason) only for: a wildcard without matches, a wildcard prefix that is not a plain directory, and a dst that is a symlink or that an earlier match of the same call turned into a symlink (where later matches go is symlink resolution, C14). " +
 			"Every successful copy is repeated: the second run is checked against the model applied to the first result, and when the landing path is the same the two snapshots must agree in everything but inode/ctime/atime and the mtime of proper ancestors of the landing path. " +
 			"One case in three gives the source tree one or two hard-link groups (regular files, one time in five fifos; 1-3 further names in other directories, names from the same universe), half of them with the stacking shape arranged (D1/n member, D2/n other content, D3/m member, D1<D2<D3 top-level directories) and wildcards that sweep several directories ('*/*', '?/*', '*/<member name>') onto a directory; the model keeps, per destination path, the LAST source entry that landed there (union of the matches applied in order) and demands its bytes whatever the inode sharing (signature wildcard-link-content when that source is a member of a link group); destination paths whose last-landing sources are members of one source inode must share an inode, judged only for groups none of whose images was overwritten, removed or stacked during the call (others counted as link_groups_not_judged_image_overwritten_during_call). non-trivial = at least one source entry met an existing destination entry (merge, replace or conflict) or the destination path met a non-directory; distinct by (trees, arguments, flags) fingerprint",
@@ -424,6 +424,78 @@ func init() {
 		}),
 		Run: c15Run,
 	})
+}
+
+// c15LazyParentObstacle: patterns select an entry below a directory they do
+// not select; where that directory belongs the destination has something that
+// is no directory (a symlink to a directory of the destination that holds an
+// entry of the selected name, or a file). Rule: conflict - the call fails, the
+// obstacle stays, and nothing else of the destination changes, whatever the
+// always-replace flag says.
+func c15LazyParentObstacle(r *core.Result, lr *core.Rand, srcRoot, dstRoot string) *core.Result {
+	dirN := core.Pick(lr, []string{"a", "lib", "a-b"})
+	leaf := core.Pick(lr, []string{"f", "x.txt", "sub"})
+	srcT, dstT := &tree.Tree{}, &tree.Tree{}
+	srcT.Put(tree.Entry{Path: dirN, Type: tree.Dir, Perm: 0755, Mtime: 1e18})
+	switch lr.Intn(3) {
+	case 0:
+		srcT.Put(tree.Entry{Path: dirN + "/" + leaf, Type: tree.File, Perm: 0644, Mtime: 1e18, Data: []byte("from the source")})
+	case 1:
+		srcT.Put(tree.Entry{Path: dirN + "/" + leaf, Type: tree.Symlink, Perm: 0777, Mtime: 1e18, Target: "elsewhere"})
+	default:
+		srcT.Put(tree.Entry{Path: dirN + "/" + leaf, Type: tree.Dir, Perm: 0750, Mtime: 1e18})
+		srcT.Put(tree.Entry{Path: dirN + "/" + leaf + "/inner", Type: tree.File, Perm: 0600, Mtime: 1e18, Data: []byte("inner")})
+	}
+	srcT.Put(tree.Entry{Path: "zz-unselected", Type: tree.File, Perm: 0644, Mtime: 1e18, Data: []byte("u")})
+	symlinkObstacle := lr.P(2, 3)
+	if symlinkObstacle {
+		dstT.Put(tree.Entry{Path: dirN, Type: tree.Symlink, Perm: 0777, Mtime: 5, Target: "other"})
+		dstT.Put(tree.Entry{Path: "other", Type: tree.Dir, Perm: 0755, Mtime: 5})
+		if lr.P(1, 2) {
+			dstT.Put(tree.Entry{Path: "other/" + leaf, Type: tree.File, Perm: 0600, Mtime: 5, Data: []byte("precious")})
+		} else {
+			dstT.Put(tree.Entry{Path: "other/" + leaf, Type: tree.Dir, Perm: 0700, Mtime: 5})
+			dstT.Put(tree.Entry{Path: "other/" + leaf + "/precious", Type: tree.File, Perm: 0600, Mtime: 5, Data: []byte("precious")})
+		}
+	} else {
+		dstT.Put(tree.Entry{Path: dirN, Type: tree.File, Perm: 0644, Mtime: 5, Data: []byte("a file where the directory belongs")})
+	}
+	dstT.Put(tree.Entry{Path: "keep", Type: tree.File, Perm: 0644, Mtime: 5, Data: []byte("k")})
+	srcT.Sort()
+	dstT.Sort()
+	if err := tree.Materialise(srcRoot, srcT); err != nil {
+		r.Inconclusive = "materialise: " + err.Error()
+		return r
+	}
+	if err := tree.Materialise(dstRoot, dstT); err != nil {
+		r.Inconclusive = "materialise: " + err.Error()
+		return r
+	}
+	before, err := tree.Snapshot(dstRoot, tree.SnapOpt{})
+	if err != nil {
+		r.Inconclusive = "snapshot: " + err.Error()
+		return r
+	}
+	fl := cpFlags{Always: lr.P(3, 4), CDC: true, Include: []string{dirN + "/" + leaf}}
+	cerr := runCopy(srcRoot, "/", dstRoot, "/", fl)
+	after, err := tree.Snapshot(dstRoot, tree.SnapOpt{})
+	if err != nil {
+		r.Violate("dest-unreadable", "cannot snapshot the destination after the copy: %v", err)
+		return r
+	}
+	desc := fmt.Sprintf("lazy-parent-obstacle include=%s obstacle-symlink=%v flags=%s", fl.Include[0], symlinkObstacle, fl)
+	r.Sample = map[string]any{"config": desc, "source": srcT.Lines(), "destination": dstT.Lines()}
+	r.FP = desc + srcT.Fingerprint() + dstT.Fingerprint()
+	r.Nontrivial = true
+	r.Count("lazy_parent_obstacle_cases", 1)
+	if cerr == nil {
+		r.Violate("lazy-parent-obstacle-no-error", "%s: the copy succeeded although a non-directory stands where the selected entry's parent belongs", desc)
+		return r
+	}
+	if d := tree.Diff(before, after, tree.Mask{Perm: true, Owner: true, Xattrs: true, Data: true, Target: true, Mtime: true, Links: true}); len(d) > 0 {
+		r.Violate("lazy-parent-obstacle-dest-changed", "%s: the copy failed (%v) as it has to, but the destination is not what it was:\n%s", desc, cerr, strings.Join(trunc(d, 6), "\n"))
+	}
+	return r
 }
 
 func c15Tree(r *core.Rand, side string) *tree.Tree {
@@ -747,6 +819,9 @@ func c15Run(c *core.Ctx) *core.Result {
 			r.Inconclusive = err.Error()
 			return r
 		}
+	}
+	if lr := core.NewRand(core.Mix(c.Seed, "C15-lazy-parent-obstacle", c.Index)); lr.P(1, 40) {
+		return c15LazyParentObstacle(r, lr, srcRoot, dstRoot)
 	}
 	srcT := c15Tree(c.R, "src")
 	dstT := c15Tree(c.R, "dst")
